@@ -202,6 +202,20 @@ CHECKS["C15"] = dict(
     technique="TLA+/TLC model checking of affine laws + TLC-validated metamorphic fact traces",
     note=TRUST + "; MAP with frozen means and adapted variances is excluded (C05's formula is not shift-equivariant there)")
 
+CHECKS["C19"] = dict(
+    text="TLC checks specs/Ownership.tla: a heap of caller-owned cells (training array, labels, statistics arrays, initial "
+         "centroids, prior parameters, model arrays) and library-owned results, one action per public entry point (30) carrying its "
+         "effect summary (reads, writes, result aliases) plus CallerOverwrites; over all call sequences of length <= 3 that reuse "
+         "the same inputs: CallerCellsNeverWritten, ResultsDisjointFromInputs, ReuseGivesSameResult, "
+         "LaterOverwriteDoesNotMoveModel, ModelsNeverMove; five deviations are refuted. Every exported behaviour is executed on "
+         "real objects (NumPy and Dask inputs): byte snapshots of every input before/after, np.shares_memory between every "
+         "returned or trained array and every input, bitwise equality of repeated calls, and trained parameters after the caller "
+         "overwrites its buffers must equal exactly the written / aliased / same / moved sets TLC printed.",
+    ref="DESIGN.md section 5 (C19)",
+    technique="TLA+/TLC model checking of ownership effect summaries + behaviour replay with byte snapshots and shares_memory",
+    note=TRUST + "; the nested probe form of score() is outside the documented domain; lazily evaluated Dask parameters "
+         "(WCCN/whitening on Dask input) are computed right after fit")
+
 PENDING = {}
 
 
